@@ -251,7 +251,20 @@ def run_shard(spec, rec):
     def env_for(limit, mode):
         k = (limit, mode)
         if k not in envs:
-            envs[k] = type("E", (JSONPathEnvironment,), {"max_recursion_depth": limit, "nondeterministic": mode == "nondeterministic"})()
+            if R.random() < 0.3:
+                # configured on the instance, after the environment was already used with another limit
+                e = type("E", (JSONPathEnvironment,), {"nondeterministic": mode == "nondeterministic"})()
+                e.max_recursion_depth = R.choice([2, 50, 1000])
+                try:
+                    e.find("$..*", [[1], {"a": [2]}])
+                except Exception:  # noqa: BLE001
+                    pass
+                e.max_recursion_depth = limit
+                rec.feat("limit-configured-on:instance-after-use")
+                envs[k] = e
+            else:
+                envs[k] = type("E", (JSONPathEnvironment,), {"max_recursion_depth": limit, "nondeterministic": mode == "nondeterministic"})()
+                rec.feat("limit-configured-on:class")
         return envs[k]
     limits = [1, 2, 3, 4, 5, 6, 7, 8, 20, 50, 100, 400, 1500, 3000]
     for i in range(spec["n"]):
@@ -268,6 +281,12 @@ def run_shard(spec, rec):
             if prefix:
                 doc = {"x": doc, "y": [[[[1]]]] if limit < 4 else 1}
                 text = text.replace("$..", "$.x..")
+            elif R.random() < 0.12 and N >= 1:
+                # the descendant segment sits inside a filter test; an early match precedes the deep part
+                doc = [{"a": 1, "0": 0, "zz": doc}] if R.random() < 0.5 else [[1, {"a": 2}, doc]]
+                text = R.choice(["$[?@..a]", "$[?@..[0]]", "$[?@..a || @.q]", "$[?!@..a]", "$[?count(@..a) > 0]", "$[?@..*]"])
+                N = N + 1   # the tested child wraps the shape in one more container
+                form = form + "+in-filter"
             ast = abn.ast(text)
             want = mon.want_sig(model.find(ast, doc)) if N <= limit else None
             meta = {"shape": "acyclic-%s" % form, "nesting": N, "document": jsonable(doc) if N <= 12 else "<chain of nesting %d>" % N}
